@@ -893,6 +893,10 @@ class SigmaCIDRExpression(NoPlainConversionMixin, SigmaType):
             self.network = ip_network(self.cidr)
         except ValueError as e:
             raise SigmaTypeError("Invalid CIDR expression: " + str(e), source=self.source)
+        if "%" in self.cidr:  # the ipaddress module accepts scoped IPv6 addresses (fe80::1%eth0/128)
+            raise SigmaTypeError(
+                "Invalid CIDR expression: zone identifiers are not supported", source=self.source
+            )
 
     def __str__(self) -> str:
         return self.cidr
